@@ -359,8 +359,9 @@ spec fn same_compiler_but_code(a: Compiler, b: Compiler) -> bool {
 }
 
 impl Chunk {
-    //@fn file=yarel/src/chunk.rs path=Chunk::write
-    //@  ensures final(self).code@ == old(self).code@.push(byte) && final(self).lines@ == old(self).lines@.push(line)
+    //@fn file=yarel/src/chunk.rs path=Chunk::write props=C04,C06,C17
+    //@  ensures final(self).code@ == old(self).code@.push(byte) && final(self).lines@.len() == old(self).lines@.len() + 1 && final(self).lines@.subrange(0, old(self).lines@.len() as int) == old(self).lines@
+    //@  ensures @the_line_table_records_the_line_it_is_given final(self).lines@.last() as int == line as int
     //@  ensures final(self).constants == old(self).constants && final(self).constant_map == old(self).constant_map
     //@end
 
@@ -452,7 +453,7 @@ impl Parser {
     //@  requires old(self).pwf()
     //@  ensures final(self).pwf(), old(self).same_but_code(final(self))
     //@  ensures final(self).code() == old(self).code().push(byte)
-    //@  ensures @an_emitted_byte_is_attributed_to_the_line_of_the_token_just_consumed final(self).cur().chunk.lines@ == old(self).cur().chunk.lines@.push(old(self).previous.line as i32)
+    //@  ensures @an_emitted_byte_is_attributed_to_the_line_of_the_token_just_consumed final(self).cur().chunk.lines@.len() == old(self).cur().chunk.lines@.len() + 1 && final(self).cur().chunk.lines@.subrange(0, old(self).cur().chunk.lines@.len() as int) == old(self).cur().chunk.lines@ && (old(self).previous.line <= 0x7fff_ffff ==> final(self).cur().chunk.lines@.last() as int == old(self).previous.line as int)
     //@end
 
     //@fn file=yarel/src/compiler.rs path=Parser::emit_bytes
